@@ -51,13 +51,13 @@ LEVEL_TEXT = (
     "inside (0,1), -> 1 / -> 0, median 1/2, point symmetry; Maxwell-Boltzmann CDF in [0,1), 0 below the support, -> 1; binomial: CDF is the partial sum, the masses sum to one, mass >= 0, 0 beyond the trials (given that the "
     "Binomial_Coefficient parameter returns C(n,k)); Poisson: the log-sum equals e^-mu mu^k / k!, the mean-0 conventions, the partial sum of the masses equals "
     "1 - (1/n!) RInt t^n e^-t 0 mu (the regularised upper incomplete gamma function at integer a), hence CDF_Poisson is the partial sum whenever GammaQ returns "
-    "that function; likelihood = mass at s+b, log = logarithm, binned = sum/product, size mismatch exits, empty background = zeros, the binned value of a histogram cut into consecutive blocks of any sizes is the sum (product) of the blocks' values, a bin without observed events contributes -(s+b) whatever the split (so -b without predicted signal); chi-square: the log-space "
+    "that function; likelihood = mass at s+b, log = logarithm, binned = sum/product, size mismatch exits, empty background = zeros, the binned value of a histogram cut into consecutive blocks of any sizes is the sum (product) of the blocks' values, a bin without observed events contributes -(s+b) whatever the split (so -b without predicted signal), in a session of single-bin and binned requests answered one after the other in one process every answer is the answer the request gets alone whatever was asked before it (also requests outside the ranges, e.g. total expectation 0) and single-bin requests never end the session; chi-square: the log-space "
     "density equals x^(k/2-1) e^(-x/2) / (2^(k/2) Gamma(k/2)) given GammaLn = ln Gamma, CDF = GammaP(x/2,k/2), CDF' = density given the defining derivative of P, "
     "dof-0 conventions, chi-bar mixture linearity and clamp; Quantile_Gauss: exact inverse given the exact inverse error function and error <= sqrt2 sigma delta "
     "for an Inv_Erf accurate to delta; Inv_CDF_Poisson(0,c) is the exact inverse; KDE: the tabulation never indexes out of bounds; the automatic bandwidth's two-pass variance is >= 0 for non-negative weights, the bandwidth is > 0 unless every "
     "positively weighted sample sits at the weighted mean, and it is unchanged by a common offset of the samples. "
     "NOT theorems: numeric agreement of GammaQ/GammaP/GammaLn/Inv_GammaQ/Inv_Erf/"
-    "Binomial_Coefficient with the functions they approximate (C06/C02), and the KDE's normalisation (it divides by an approximate Simpson integral) — these are "
+    "Binomial_Coefficient with the functions they approximate (C06/C02), and the KDE's normalisation (it divides by an approximate Simpson integral; S4 integrates the returned cubic segments exactly and allows 1e-6 plus the rounding of the abscissae, ulp(x)/2 times the total variation of the estimate, which matters only for windows 1e9 or more widths away from the origin) — these are "
     "S4 predicates on the implementation for every generated case. Correspondence: all closed forms, sums, likelihoods are run model-vs-C++ (bit-identical); "
     "functions that delegate (CDF_Poisson, Inv_CDF_Poisson, PDF/CDF_Chi_Square, chi-bar, Quantile_Gauss, PMF/CDF_Binomial) are run with the delegate's C++ "
     "result supplied as an oracle; Perform_KDE's table is compared up to its one normalisation factor.")
